@@ -6,6 +6,7 @@ array is a Model/Arr.lean array with the reallocation rule regenerated from /rep
 -/
 import StarsimModel.Lemmas.People
 import StarsimModel.Lemmas.SimCore
+import StarsimModel.Lemmas.SimCoreLife
 
 set_option maxRecDepth 2000
 namespace StarsimModel.C10
@@ -759,6 +760,43 @@ example : (∀ a ∈ ([⟨true, true, none, ⟨true, false, false⟩, Gen.Sir.Ti
                    ⟨false, false, some 0, ⟨false, false, false⟩, Gen.Sir.Timers.const none⟩] : List Agent), Clean a) := by
   intro a ha; simp only [List.mem_cons, List.mem_nil_iff, or_false] at ha
   rcases ha with rfl | rfl <;> intro hp <;> first | exact ⟨rfl, rfl⟩ | cases hp
+/-- **Identifiers in the composed model**: after any run, from any population and under any events, the identifier space
+    is the initial one plus all births — identifiers are dense, in creation order, and none is ever reused. -/
+theorem C10_composed_dense_ids (s : Sim) (evs : List Events) :
+    (run s evs).pop.length = s.pop.length + sumNat (evs.map (·.births)) :=
+  run_length evs s
+
+/-- the agents created in a step are exactly those at the indices right after the existing ones -/
+theorem C10_composed_newborn_ids (s : Sim) (ev : Events) (i : Nat) :
+    (s.pop.length ≤ i ∧ i < s.pop.length + ev.births) ↔ (s.pop[i]? = none ∧ (simStep s ev).pop[i]? ≠ none) :=
+  simStep_newborn_ids s ev i
+
+/-- **Death is permanent in the composed model** — no hypothesis on population, events, admissibility or run length: every
+    identifier keeps naming the same slot, the dead stay dead, and an agent removed from the active set never re-enters. -/
+theorem C10_composed_death_permanent (s : Sim) (evs : List Events) (i : Nat) (a : Agent) (h : s.pop[i]? = some a) :
+    ∃ a', (run s evs).pop[i]? = some a' ∧ (a.alive = false → a'.alive = false) ∧
+      (a.present = false → a'.present = false) :=
+  run_life evs s i a h
+
+/-- **A request made before deaths are resolved is carried out in the same step** (demographics-phase requests of other
+    modules, or a request already due), and whoever is active when a step ends is alive. -/
+theorem C10_composed_request_same_step (s : Sim) (ev : Events) (i : Nat) (a : Agent) (h : s.pop[i]? = some a)
+    (hp : a.present = true) (hreq : i ∈ ev.background ∨ due a.pDead s.ti = true) :
+    ∃ a', (simStep s ev).pop[i]? = some a' ∧ a'.alive = false ∧ a'.present = false := by
+  obtain ⟨a', g, _, _, _, h4⟩ := simStep_life s ev i a h
+  exact ⟨a', g, h4 hp hreq⟩
+
+theorem C10_composed_active_alive (s : Sim) (evs : List Events) (hne : evs ≠ []) :
+    ∀ a ∈ (run s evs).pop, a.present = true → a.alive = true :=
+  run_active_alive evs hne s
+
+/-- kernel-evaluated run: two agents, a birth and a background death of uid 0 in step 0, nothing in step 1: three
+    identifiers, uid 0 dead and removed for good, uid 2 the newborn -/
+example :
+    let s : Sim := ⟨0, [newborn, newborn], [], false⟩
+    let r := run s [⟨1, [0], []⟩, ⟨0, [], []⟩]
+    r.pop.length = 3 ∧ r.pop.map (·.alive) = [false, true, true] ∧ r.pop.map (·.present) = [false, true, true] := by
+  decide +kernel
 end composed
 
 end StarsimModel.C10
